@@ -125,13 +125,34 @@ fn run_history(args: &Args, hist: u64, seed: u64, n_ops: u64, out: &Mutex<Out>) 
     let mut opts = SysOpts::new(&dir);
     opts.mem_seed = seed;
     let sys = Sys::open(opts);
-    sys.bootstrap().expect("bootstrap");
     let new_t = || Tracked { ops: vec![], n_cmds: 0, total_events: 0, seen_version: 0 };
     let mut tracked: BTreeMap<String, Tracked> = BTreeMap::new();
     for h in CAS { tracked.insert(format!("ca:{h}"), new_t()); }
     tracked.insert("proxy:ta".into(), new_t());
     tracked.insert("signer:ta".into(), new_t());
     tracked.insert("access:0".into(), new_t());
+    // the publication server alone: a repository access aggregate without any publisher (snapshots of it must load)
+    sys.bootstrap_repo().expect("bootstrap repo");
+    {
+        let t = tracked.get_mut("access:0").unwrap();
+        absorb_commands(&sys, PUBSERVER_NS, "0", t);
+        let res = fresh_checks::<RepositoryAccess>(&sys, PUBSERVER_NS, "0", None, t, &mut rng);
+        emit(out, "RepositoryAccess", "0", hist, t, snapshot_version(&sys, PUBSERVER_NS, "0"), res);
+    }
+    // the trust anchor; in every fifth history its TAL has no HTTPS URI
+    sys.bootstrap_ta(hist % 5 != 4).expect("bootstrap ta");
+    {
+        let t = tracked.get_mut("proxy:ta").unwrap();
+        absorb_commands(&sys, TA_PROXY_SERVER_NS, "ta", t);
+        let live = sys.krill.ca_manager().get_trust_anchor_proxy().ok().map(|p| canon(&*p));
+        let res = fresh_checks::<TrustAnchorProxy>(&sys, TA_PROXY_SERVER_NS, "ta", live, t, &mut rng);
+        emit(out, "TrustAnchorProxy", "ta", hist, t, snapshot_version(&sys, TA_PROXY_SERVER_NS, "ta"), res);
+        let t = tracked.get_mut("signer:ta").unwrap();
+        absorb_commands(&sys, TA_SIGNER_SERVER_NS, "ta", t);
+        let live = sys.krill.ca_manager().get_trust_anchor_signer().ok().map(|p| canon(&*p));
+        let res = fresh_checks::<TrustAnchorSigner>(&sys, TA_SIGNER_SERVER_NS, "ta", live, t, &mut rng);
+        emit(out, "TrustAnchorSigner", "ta", hist, t, snapshot_version(&sys, TA_SIGNER_SERVER_NS, "ta"), res);
+    }
     let mut st = OpState::new();
     let setup = setup_steps();
     let total = setup.len() as u64 + n_ops;
@@ -172,19 +193,41 @@ fn run_history(args: &Args, hist: u64, seed: u64, n_ops: u64, out: &Mutex<Out>) 
         // before and after a snapshot update
         if rng.chance(15) {
             let h = MyHandle::from_str("0").unwrap();
-            let view = |c: &RepositoryContent| -> Value { let mut v = serde_json::to_value(c).unwrap(); strip_clock(&mut v); v };
+            // the order of the elements inside one delta comes out of a hash map when the delta is built (at the update
+            // and again at every replay): it carries no meaning, order it before comparing
+            fn sort_elements(v: &mut Value) {
+                match v {
+                    Value::Object(m) => { for (k, x) in m.iter_mut() { if matches!(k.as_str(), "publishes" | "updates" | "withdraws") { if let Value::Array(a) = x { a.sort_by_key(|e| e.to_string()); } } sort_elements(x); } }
+                    Value::Array(a) => for x in a { sort_elements(x); },
+                    _ => {}
+                }
+            }
+            let view = |c: &RepositoryContent| -> Value { let mut v = serde_json::to_value(c).unwrap(); strip_clock(&mut v); sort_elements(&mut v); v };
             let load = || -> Option<Value> {
                 std::panic::catch_unwind(std::panic::AssertUnwindSafe(|| {
                     let s = WalStore::<RepositoryContent>::create(sys.krill.storage(), PUBSERVER_CONTENT_NS).ok()?;
                     s.get_latest(&h).ok().map(|c| view(&c))
                 })).ok().flatten()
             };
-            // a session reset every now and then: its change sits in the write-ahead log until the next snapshot
+            // an RRDP update and, every now and then, a session reset: their changes sit in the write-ahead log until the
+            // next snapshot; the replay below happens more than a second later
+            let did_update = rng.chance(60) && sys.krill.repo_manager().update_rrdp_if_needed().is_ok();
             let did_reset = rng.chance(35) && sys.krill.repo_manager().rrdp_session_reset().is_ok();
-            if did_reset { std::thread::sleep(std::time::Duration::from_millis(1100)); }
+            if did_reset || did_update { std::thread::sleep(std::time::Duration::from_millis(1100)); }
             let a = load();
             let ok_snap = WalStore::<RepositoryContent>::create(sys.krill.storage(), PUBSERVER_CONTENT_NS).ok().map(|s| s.update_snapshots().is_ok()).unwrap_or(false);
             let b = load();
+            if std::env::var("KV_DEBUG").is_ok() { if let (Some(x), Some(y)) = (&a, &b) { if x != y {
+                fn diff(p: String, x: &Value, y: &Value, out: &mut Vec<String>) {
+                    if out.len() > 6 { return }
+                    match (x, y) {
+                        (Value::Object(a), Value::Object(b)) => { for k in a.keys().chain(b.keys()) { let (u, v) = (a.get(k).unwrap_or(&Value::Null), b.get(k).unwrap_or(&Value::Null)); if u != v { diff(format!("{p}/{k}"), u, v, out); } } }
+                        (Value::Array(a), Value::Array(b)) if a.len() == b.len() => { for (i, (u, v)) in a.iter().zip(b.iter()).enumerate() { if u != v { diff(format!("{p}/{i}"), u, v, out); } } }
+                        _ => out.push(format!("{p}: {} vs {}", x.to_string().chars().take(80).collect::<String>(), y.to_string().chars().take(80).collect::<String>())),
+                    }
+                }
+                let mut o = Vec::new(); diff(String::new(), x, y, &mut o); eprintln!("wal a!=b: {o:?}");
+            } } }
             let failed = a.is_none() || b.is_none() || !ok_snap;
             // live view through the API: number of files per publisher
             let mut live_ok = true;
@@ -207,6 +250,7 @@ fn run_history(args: &Args, hist: u64, seed: u64, n_ops: u64, out: &Mutex<Out>) 
             let t = Tracked { ops: vec!["EFresh".into()], n_cmds: 0, total_events: 0, seen_version: 0 };
             let mut o = out.lock().unwrap();
             if did_reset { *o.kinds.entry("RepositoryContent:after_session_reset".into()).or_default() += 1; }
+            if did_update { *o.kinds.entry("RepositoryContent:after_rrdp_update".into()).or_default() += 1; }
             let idx = o.w.total;
             let rec = json!({"index": idx, "history": hist, "aggregate": "RepositoryContent(WAL)", "fresh_equals_live": live_ok, "snapshot_equals_init": a == b, "load_failed": failed, "class": {"aggregate": "RepositoryContent"}});
             use std::io::Write;
